@@ -35,7 +35,7 @@ def _body(ctx):
     ws = grammar_weights(ctx, sk)
     ren = None
     if P.get("rename"):
-        m = dict(P["rename"])
+        m = dict((a, tuple(b) if isinstance(b, list) else b) for a, b in P["rename"])  # JSON turns tuples into lists
         ren = lambda x: m.get(x, x)
     S = ren(sk.S) if ren else sk.S
     orules = oracle_rules(ctx, sk, ws, rename=ren)
